@@ -12,6 +12,8 @@ import Zed.Proofs.ZngAlloc
 import Zed.Proofs.ZngValidate
 import Zed.Proofs.ZngTypes
 import Zed.Proofs.ZngPanics
+import Zed.Proofs.ZngTypeValue
+import Zed.Model.ZngVng
 namespace Zed.Props.C11
 open Zed.Zng Zed.Generated.C01
 
@@ -100,6 +102,92 @@ theorem former_witness_type_id (decomp : Bytes → Nat → Option Bytes) :
   split
   · rename_i e al h; rw [hs] at h; cases h; rfl
   · rename_i h; rw [hs] at h; cases h
+
+/-! ## type values (`Context.DecodeTypeValue` / `LookupByValue`) -/
+
+/-- **typevalue_decode_total.**  The model of `DecodeTypeValue` is a fuel-indexed function; with
+    fuel `length + 1` it never runs out: every recursive call and every iteration of the record,
+    union and enum loops first consumes a byte (the loop counts are taken from the input and checked
+    against `MaxRecordFields` / `MaxUnionTypes` / `MaxEnumSymbols`, so they bound the `make` calls). -/
+theorem typevalue_decode_total (tv : Bytes) : TV.lookupByValue tv ≠ .fuelOut :=
+  TV.lookupByValue_total tv
+
+/-- FULL statement "decoding a type value ends with a type or an error" is FALSE of the current
+    code at three places (witnesses replayed on the real code by the harness on every run):
+    a union member that fails to decode is appended as nil and `LookupTypeUnion` panics on it … -/
+theorem not_typevalue_panic_free_union :
+    (∃ p, TV.lookupByValue [UInt8.ofNat typeValueUnion, 1] = .panic p) ∧
+    (∃ p, TV.lookupByValue [UInt8.ofNat typeValueUnion, 2, 9] = .panic p) :=
+  ⟨⟨_, rfl⟩, ⟨_, rfl⟩⟩
+
+set_option maxRecDepth 8000 in
+/-- … a name length ≥ 2^63 is a negative `int` that passes `namelen > len(tv)` and `tv[:namelen]`
+    panics … -/
+theorem not_typevalue_panic_free_name :
+    ∃ p, TV.lookupByValue [UInt8.ofNat typeValueNameDef, 0x80, 0x80, 0x80, 0x80, 0x80, 0x80, 0x80, 0x80, 0x80, 0x01, 9] = .panic p :=
+  ⟨_, rfl⟩
+
+set_option maxRecDepth 8000 in
+/-- … and a field/member count ≥ 2^63 passes `n > MaxRecordFields` and `make(…, 0, n)` panics. -/
+theorem not_typevalue_panic_free_count :
+    ∃ p, TV.lookupByValue [UInt8.ofNat typeValueRecord, 0x80, 0x80, 0x80, 0x80, 0x80, 0x80, 0x80, 0x80, 0x80, 0x01] = .panic p :=
+  ⟨_, rfl⟩
+
+/-- non-vacuity: a well-formed type value decodes -/
+example : ∃ t r d, TV.lookupByValue [UInt8.ofNat typeValueRecord, 1, 1, 97, 9] = .ok t r d := ⟨_, _, _, rfl⟩
+
+/-! ## VNG header and vector segments -/
+
+/-- T1: `Header.Deserialize` tests each field against its own limit (it tested `MetaSize` twice
+    until repo commit 0b09f99cc), and the two vector readers allocate `MemLength` bytes with no
+    guard in front — what the model below is written against. -/
+theorem vng_shape :
+    Zed.Generated.C11.vngHeaderChecks = ["len(bytes) != HeaderSize || bytes[0] != 'V' || bytes[1] != 'N' || bytes[2] != 'G' || bytes[3] != 0",
+      "h.Version != Version", "h.MetaSize > MaxMetaSize", "h.DataSize > MaxDataSize"] ∧
+    Zed.Generated.C11.vngHeaderFields = ["h.Version = binary.LittleEndian.Uint32(bytes[4:])",
+      "h.MetaSize = binary.LittleEndian.Uint64(bytes[8:])", "h.DataSize = binary.LittleEndian.Uint64(bytes[16:])"] ∧
+    Zed.Generated.C11.vngPrimitiveBuilderMakes = ["make([]byte, p.loc.MemLength)"] ∧
+    Zed.Generated.C11.vngPrimitiveBuilderLengthGuards = [] ∧
+    Zed.Generated.C11.vngDictBuilderMakes = ["make([]byte, d.loc.MemLength)"] ∧
+    Zed.Generated.C11.vngDictBuilderLengthGuards = [] := by decide
+
+/-- **vng_header_bounded.**  Every header `Deserialize` accepts has the supported version and
+    section sizes within the declared limits. -/
+theorem vng_header_bounded (bs : Bytes) (h : Vng.Header) (hd : Vng.deserialize bs = some h) :
+    h.version = Zed.Generated.C11.vngVersion ∧ h.metaSize ≤ Zed.Generated.C11.vngMaxMetaSize ∧
+    h.dataSize ≤ Zed.Generated.C11.vngMaxDataSize := by
+  unfold Vng.deserialize at hd
+  split at hd
+  · cases hd
+  · split at hd
+    · cases hd
+    · simp only at hd
+      split at hd
+      · cases hd
+      · split at hd
+        · cases hd
+        · split at hd
+          · cases hd
+          · cases hd; simp only at *; omega
+
+/-- non-vacuity: a header is accepted -/
+example : (Vng.deserialize [86, 78, 71, 0, 4, 0, 0, 0, 10, 0, 0, 0, 0, 0, 0, 0, 6, 0, 0, 0, 0, 0, 0, 0]).isSome = true := by decide
+
+/-- **not_vng_alloc_bounded.**  FULL statement "every buffer the VNG reader requests is bounded by a
+    function of the declared limits" is FALSE of the current code: the segment's `MemLength`
+    comes from the metadata and is allocated unchecked, so for every bound there is a segment
+    descriptor (any 64-bit value is accepted) whose read requests more. -/
+theorem not_vng_alloc_bounded (bound : Nat) :
+    ∃ s : Vng.Segment, ∃ a ∈ Vng.readAllocs s, a > bound :=
+  ⟨⟨0, 0, bound + 1, false⟩, bound + 1, by simp [Vng.readAllocs], Nat.lt_succ_self _⟩
+
+/-- **vng_alloc_bounded_partial.**  Guard: the descriptor's lengths do not exceed the data section
+    the (checked) header declares; then so do the requests. -/
+theorem vng_alloc_bounded_partial (s : Vng.Segment) (dataSize : Nat)
+    (hg : s.memLength ≤ dataSize ∧ s.length ≤ dataSize) : ∀ a ∈ Vng.readAllocs s, a ≤ dataSize := by
+  intro a ha
+  unfold Vng.readAllocs at ha
+  split at ha <;> simp at ha <;> rcases ha with rfl | rfl <;> omega
 
 /-! ## Validate -/
 
